@@ -10,7 +10,7 @@ import (
 //
 //	F8-trees:  every expression tree of depth <= 3 over
 //	           {local, constant, e+e, add(e,e), id(e) [, tt[e]]}
-//	F8-spines: 13 chain shapes (nested operators, nested calls, wide argument
+//	F8-spines: 15 chain shapes (nested operators, nested calls, wide argument
 //	           lists and constructors, concat / and-or chains, nested indexing,
 //	           nested immediately-called function literals, ...) of length
 //	           2..16 x {locals, constants, calls} as elements
@@ -250,6 +250,28 @@ var f8Spines = []struct {
 			return b.Call(b.Paren(b.fn([]string{p}, false, b.Return(sum))), es[k-1])
 		}
 		return build(1)
+	}},
+	{"nested-lambda-far", func(b g, L int, elem func() prog.Expr) prog.Expr {
+		// the innermost function reads the parameter of the outermost one: an
+		// upvalue passed down through L-1 intermediate closures that do not use it
+		es := f8Elems(L, elem)
+		var build func(k int) prog.Expr
+		build = func(k int) prog.Expr {
+			p := fmt.Sprintf("p%d", k)
+			var ret prog.Expr
+			if k < L {
+				ret = build(k + 1)
+			} else {
+				ret = b.Bin("+", b.Bin("*", b.n("p1"), b.i(1000)), b.n(p))
+			}
+			return b.Call(b.Paren(b.fn([]string{p}, false, b.Return(ret))), es[k-1])
+		}
+		return build(1)
+	}},
+	{"long-table", func(b g, L int, elem func() prog.Expr) prog.Expr {
+		// ({e1, ..., e_4L})[4L] + #{...}: constructors longer than one batch
+		es := f8Elems(4*L, elem)
+		return b.Bin("+", b.Index(b.Paren(b.List(es...)), b.i(4*L)), b.Un("#", b.List(f8Elems(4*L, elem)...)))
 	}},
 	{"mixed", func(b g, L int, elem func() prog.Expr) prog.Expr {
 		es := f8Elems(L, elem)
